@@ -1,13 +1,37 @@
 from .common import Stream, run_model, REFDRV
 from . import streams_tables
+from . import streams_geom
 import subprocess
 
 ID = 'C15'
 PROPS_MODULE = 'Refine.Props.C15'
-STREAMS = [streams_tables.CELL]
-EXPLANATION = ('Proved: the generated e2n/f2n tables of all 3-D cell types describe a closed, coherently oriented '
-               'boundary (each directed side once, reversed once; each edge in two faces; Euler 2).')
-ASSUMPTIONS = ['IEEE rounding in every REF_DBL kernel is modelled (Float instance, bit-compared), not verified']
+STREAMS = [streams_tables.CELL, streams_geom.KERNELS, streams_geom.BARY, streams_geom.RATIO_QUAD]
+EXPLANATION = (
+    'Proved (Lean 4, exact real arithmetic, over the executable model that is bit-compared with the C on every run): '
+    'the generated e2n/f2n tables of all 3-D cell types describe a closed, coherently oriented boundary (each directed '
+    'side once, reversed once; each edge in two faces; Euler 2); tet volume is det/6, negated by every transposition and '
+    'fixed by even permutations, zero for repeated vertices, additive over a cone point (cone4) and split in ratio by an '
+    'edge split; volume is affine in vertex 0 so ref_node_tet_dvol_dnode0 IS the finite difference (tetVol_affine0); '
+    'triangle normal/area antisymmetry and permutation invariance; vt_m_v second-order expansion with the coded '
+    'derivative as linear term and the chain rule for sqrt_vt_m_v; bary4/bary3/bary3d weights sum to one and reproduce '
+    'the query point (bary3d: its orthogonal projection; the un-normalised normal used by the C is proved harmless); the '
+    'div_zero branches return what the C returns; edge length in the metric is symmetric in its end points and scales '
+    'linearly with metric size above the 1e-12 cut-off. '
+    'Tie: tet_vol/xyz_vol/dvol, tri_normal/area/orientation/darea, normalize, vt_m_v + both derivatives, '
+    'ratio/ratio_node0/dratio_dnode0 (geometric), interpolate_edge, bary4/3/3d, clip_bary2/3/4 compared bit for bit on '
+    'random and adversarial simplices; the quadrature edge length is validated around an uninterpreted ref_matrix_exp_m. '
+    'Oracle: exact rational identities (fractions of the hex doubles) with conditioning-scaled tolerances, '
+    'finite differences for the derivatives.')
+ASSUMPTIONS = [
+    'IEEE rounding in every REF_DBL kernel is modelled (Float instance, bit-compared), not verified: theorems hold in '
+    'exact real arithmetic',
+    'quality in (0,1], quality = 1 on the metric-regular simplex and affine invariance (jac/epic quality: exp_m, log_m, '
+    'pow 2/3) are NOT proved and not tied by this package',
+    'ratio_scale is proved for s >= 1 with end-point lengths >= 1e-12: below that cut-off the C returns '
+    'MIN(ratio0, ratio1) instead of the logarithmic mean, so exact linear scaling is false there',
+    'ref_matrix_exp_m is an uninterpreted input of the quadrature edge length (stream geom_ratio_quad): its output is '
+    'taken from the implementation',
+]
 
 
 def WITNESS(ctx, a):
